@@ -14,7 +14,7 @@ cd /verif
 # evidence of a mutant run must not overwrite the real evidence
 cp evidence/$ID.json /tmp/ev-$ID.$$ 2>/dev/null
 ./run.sh $ID $TIER > /tmp/mut-out.$$ 2>&1; RC=$?
-grep -E "VIOLATION|KNOWN|ENGINE|BUILD|^C[0-9]+ " /tmp/mut-out.$$ | head -8
+grep -aE "VIOLATION|KNOWN|ENGINE|BUILD|^C[0-9]+ " /tmp/mut-out.$$ | head -8
 [ -f /tmp/ev-$ID.$$ ] && mv /tmp/ev-$ID.$$ evidence/$ID.json
 rm -f /tmp/mut-out.$$
 echo "RESULT patch=$(basename $P) TESTS=$T CHECK=$RC"
